@@ -27,8 +27,8 @@ RULE = ('CPGen call trees: constants vs input-dependent values, decidable/undeci
         'snippet (known-finding mechanisms, attributed by re-running the same program without the snippet). '
         'Non-trivial = transformed text differs from the regenerated original and both programs ran on all inputs; '
         'distinct = hash of sources + mode + options.')
-CASES = {'quick': 288, 'thorough': 4320}
-MIN_NONTRIVIAL = {'quick': 120, 'thorough': 2000}
+CASES = {'quick': 240, 'thorough': 3600}
+MIN_NONTRIVIAL = {'quick': 100, 'thorough': 1500}
 ANCHORS = ['loki/transformations/constant_propagation.py', 'loki/transformations/remove_code.py']
 REQUIRED_REACH = ['do_constant_propagation', 'do_remove_dead_code', 'do_remove_unused_vars',
                   'do_remove_unused_dummy_args', 'do_remove_unused_call_args', 'transform_subroutine']
@@ -61,6 +61,7 @@ HAZ = {
     'cycle_in_loop': (['cp'], 'constprop:assignment-after-conditional-cycle-taken-as-executed'),
     'unroll_cycle': (['cpu'], 'constprop:unroll:cycle-in-unrolled-loop'),
     'unroll_exit': (['cpu'], 'constprop:unroll:exit-in-unrolled-loop'),
+    'neg_folded_pow_base': (['cp', 'cpu'], 'constprop:base-of-power-folded-to-negative-literal-printed-without-brackets'),
     'real_kind_fold': (['cp', 'cpu'], 'constprop:folded-real-literal-loses-kind'),
     'internal_present': (['cp', 'cpu'], 'constprop:routine-with-internal-procedure'),
     'simp_int_quot_sum': (['cp', 'cpu'], 'constprop:simplify:integer-quotient-distributed-over-sum'),
